@@ -68,7 +68,12 @@ func buildRects(g *graph.DGraph, r routableEdge) (rects []geom.Rect) {
 			// and one that spans the space around the virtual node
 			tl := g.Layers[top.Layer]
 			bl := g.Layers[btm.Layer]
-			rects = append(rects, rectBetweenLayers(tl, bl))
+			between := rectBetweenLayers(tl, bl)
+			if !top.IsVirtual {
+				// the edge leaves from the bottom side of its source node, which may be shorter than its layer
+				between.TL.Y = top.Y + top.H
+			}
+			rects = append(rects, between)
 			rects = append(rects, rectVirtualNode(btm, bl))
 
 		case top.IsVirtual:
@@ -83,42 +88,53 @@ func buildRects(g *graph.DGraph, r routableEdge) (rects []geom.Rect) {
 
 func rectBetweenLayers(l1, l2 *graph.Layer) geom.Rect {
 	h1, h2 := l1.Head(), l2.Head()
-	t1, t2 := l2.Tail(), l2.Tail()
+	t1, t2 := l1.Tail(), l2.Tail()
+	// the rectangle spans vertically from the bottom of the upper layer to the top of the lower layer
 	return geom.Rect{
-		TL: geom.P{min(h1.X, h2.X), h1.Y + h1.H},
+		TL: geom.P{min(h1.X, h2.X), h1.Y + l1.H},
 		BR: geom.P{max(t1.X+t1.W, t2.X+t2.W), t2.Y},
 	}
 }
 
+// the rectangle around a virtual node spans the full height of its layer, so that it touches
+// the rectangles between layers above and below it
 func rectVirtualNode(vn *graph.Node, vl *graph.Layer) geom.Rect {
+	r := rectAroundVirtualNode(vn, vl)
+	// keep a minimum clearance around the virtual node, also when its neighbors leave no room (e.g. with zero node spacing)
+	r.TL.X = min(r.TL.X, vn.X-10)
+	r.BR.X = max(r.BR.X, vn.X+10)
+	return r
+}
+
+func rectAroundVirtualNode(vn *graph.Node, vl *graph.Layer) geom.Rect {
 	switch p := vn.LayerPos; {
 	case p == 0:
 		// this p+1 access is safe: a layer cannot contain only one virtual node
 		n := vl.Nodes[p+1]
 		return geom.Rect{
-			TL: geom.P{vn.X - 10, n.Y},
-			BR: geom.P{n.X, n.Y + n.H},
+			TL: geom.P{vn.X - 10, vn.Y},
+			BR: geom.P{n.X, vn.Y + vl.H},
 		}
 
 	case p == vl.Len()-1:
 		// this p-1 access is safe: a layer cannot contain only one virtual node
 		n := vl.Nodes[p-1]
 		return geom.Rect{
-			TL: geom.P{n.X + n.W, n.Y},
-			BR: geom.P{vn.X + 10, n.Y + n.H},
+			TL: geom.P{n.X + n.W, vn.Y},
+			BR: geom.P{vn.X + 10, vn.Y + vl.H},
 		}
 
 	default:
 		n1 := vl.Nodes[p-1]
 		n2 := vl.Nodes[p+1]
-		return rectBetweenNodes(n1, n2)
+		return rectBetweenNodes(n1, n2, vn.Y, vl.H)
 	}
 }
 
-func rectBetweenNodes(n1, n2 *graph.Node) geom.Rect {
+func rectBetweenNodes(n1, n2 *graph.Node, y, h float64) geom.Rect {
 	d := n2.X - (n1.X + n1.W)
 	return geom.Rect{
-		TL: geom.P{n1.X + n1.W + d/3, n1.Y},
-		BR: geom.P{n2.X - d/3, n2.Y + n2.H},
+		TL: geom.P{n1.X + n1.W + d/3, y},
+		BR: geom.P{n2.X - d/3, y + h},
 	}
 }
